@@ -164,6 +164,19 @@ func (w *world) snap() snapshot {
 				wk := newWalker()
 				wk.walk(it, "")
 				s[clITs+"|"+itName] = hashStr(wk.b.String())
+				// the provider-owned maps one by one, by content (a finer diagnosis than the whole-type hash)
+				s[clITs+"|"+itName+" .Capacity"] = hashStr(renderValue(it.Elem().FieldByName("Capacity")))
+				s[clITs+"|"+itName+" .Overhead"] = hashStr(renderValue(it.Elem().FieldByName("Overhead")))
+				for k := 0; k < o.Len(); k++ {
+					s[fmt.Sprintf("%s|%s .Offerings[%d] overrides", clITs, itName, k)] = hashStr(
+						renderValue(o.Index(k).Elem().FieldByName("CapacityOverride")) + renderValue(o.Index(k).Elem().FieldByName("OverheadOverride")))
+				}
+				cache := access(it.Elem().FieldByName("allocatableOfferings"))
+				if cache.Len() == 0 {
+					s[clITs+"|"+itName+cacheSuffix] = cacheUnset
+				} else {
+					s[clITs+"|"+itName+cacheSuffix] = hashStr(renderValue(cache))
+				}
 			}
 		}
 		s[clOrder+"|"+name] = hashStr(strings.Join(order, ";"))
@@ -173,6 +186,42 @@ func (w *world) snap() snapshot {
 		s[clCands+"|"+c.Name()] = digestOf(c)
 	}
 	return s
+}
+
+const (
+	cacheSuffix = " lazily computed allocatable groups"
+	cacheUnset  = "unset"
+)
+
+func renderValue(v reflect.Value) string {
+	wk := newWalker()
+	wk.walk(access(v), "")
+	return wk.b.String()
+}
+
+// cachesFresh reports whether every computed allocatable group of every instance type owns its Allocatable map,
+// i.e. shares no memory with the maps the provider built (Capacity, Overhead, the offerings' override maps).
+func (w *world) cachesFresh() (fresh bool, computed int) {
+	fresh = true
+	for _, it := range w.cp.InstanceTypes {
+		owned := map[uintptr]bool{}
+		collect(reflect.ValueOf(it.Capacity), owned)
+		collect(reflect.ValueOf(it.Overhead), owned)
+		for _, o := range it.Offerings {
+			collect(reflect.ValueOf(o.CapacityOverride), owned)
+			collect(reflect.ValueOf(o.OverheadOverride), owned)
+		}
+		cache := field(it, "allocatableOfferings")
+		for k := 0; k < cache.Len(); k++ {
+			computed++
+			a := map[uintptr]bool{}
+			collect(access(cache.Index(k).FieldByName("Allocatable")), a)
+			if shares(a, owned) {
+				fresh = false
+			}
+		}
+	}
+	return
 }
 
 type change struct {
@@ -195,6 +244,9 @@ func diff(a, b snapshot) (classes []string, details []change) {
 	}
 	sort.Strings(ks)
 	for _, k := range ks {
+		if strings.HasSuffix(k, cacheSuffix) && a[k] == cacheUnset {
+			continue // first evaluation of a lazily computed cache
+		}
 		if a[k] != b[k] {
 			cl := k[:strings.Index(k, "|")]
 			if !seen[cl] {
